@@ -55,6 +55,19 @@ DIRECTED = {
                               "nsolve 0", "caddcal 0 other 0", "nsolve 0", "caddcal 0 cal0 0", "cgets 0 0", "cgets 0 1", "cfree 0"],
     "cal_two_cals": ["ccreate 0 1", "nalloc 0 0 0 1 1 1", "nsetfv 0 0"] + SOL1 + ["nsolve 0", "caddcal 0 cal0 0", "nalloc 1 0 1 1 1 1", "nsetfv 1 0"] +
                     [s.replace("nsr 0", "nsr 1") for s in SOL1] + ["nsolve 1", "caddcal 0 cal1 1", "cfind 0 cal1", "cdelcal 0 0", "cgets 0 1", "csave 0 1", "cload 1 1 0", "cgets 1 1"],
+    # vector <- unknown <- correlated with sigma_frequency_vector NULL (frequencies borrowed from the vector at the end of the
+    # chain); delete the correlated parameter, evaluate the vector, make a second one, delete everything, free (checks/C03.py D43)
+    "cal_corr_borrowed_f_chain": ["ccreate 0 1", "cvector 0 4 0", "cunknown 0 3", "ccorr 0 4 4 1", "cpdel 0 5", "cpval 0 3 1.2e9", "ccorr 0 4 4 1",
+                                  "cpdel 0 5", "cpdel 0 4", "cpdel 0 3", "cpdel 0 3", "cfree 0"],
+    # an unknown parameter solved repeatedly with the same number of frequencies: three times by one vnacal_new_t ...
+    "cal_resolve_unknown": ["ccreate 0 1", "cscalar 0 0.45 0.25", "cunknown 0 3", "nalloc 0 0 8 1 1 2", "nsetfv 0 0"] + SOL1 +
+                           ["nsr 0 1 1 0 0 4 1 0.5 0.3", "nsolve 0", "cpval 0 4 1.5e9", "nptol 0 1e-9 0", "nsolve 0", "cpval 0 4 1.5e9", "caddcal 0 cal0 0",
+                            "nsolve 0", "cpval 0 4 1.5e9", "nfree 0", "cpdel 0 4", "cpdel 0 3", "cdelcal 0 0", "cfree 0"],
+    # ... and by two vnacal_new_t of equal frequency count that share it
+    "cal_unknown_two_news": ["ccreate 0 1", "cscalar 0 0.45 0.25", "cunknown 0 3", "nalloc 0 0 8 1 1 2", "nsetfv 0 0", "nalloc 1 0 0 1 1 2", "nsetfv 1 0"] +
+                            SOL1 + [s.replace("nsr 0", "nsr 1") for s in SOL1] +
+                            ["nsr 0 1 1 0 0 4 1 0.5 0.3", "nsr 1 1 1 0 0 4 1 0.5 0.3", "nsolve 0", "nsolve 1", "cpval 0 4 1.5e9", "nsolve 0", "cpval 0 4 1.5e9",
+                             "caddcal 0 cal0 0", "nfree 0", "cpdel 0 4", "cpdel 0 3", "nsolve 1", "nfree 1", "cfree 0"],
 }
 
 
@@ -200,7 +213,7 @@ def run(ctx):
     ctx.trusted_base = [
         "Coq 8.16.1 kernel (coqc); vm_compute for the refutation witnesses and examples; no native_compute",
         "axioms: none (Print Assumptions: Closed under the global context for every theorem of Properties_C12.v)",
-        "hand-written fault-monad models coq/Mem/{PropList,DataAlloc,ParamSlots}.v tied to the C code by running the same op scripts "
+        "hand-written fault-monad models coq/Mem/{PropList,DataAlloc,ParamSlots,HashTab}.v tied to the C code by running the same op scripts "
         "with fail_at = k on the extracted models and with the k-th tracked request failing on the white-box C ops",
         "allocation sequences of everything that is not modelled (solver, loaders, savers, most of the API) are enumerated on the C side only (support): "
         "harness/allocwrap.c (only requests from libvna objects are counted / failed), gcc ASan/UBSan/LSan",
